@@ -252,6 +252,14 @@ def make_bases(ctx):
                                'st': list(a)})
 
 
+def prepare(tier, seed):
+    class _C(object):
+        pass
+    c = _C()
+    c.thorough, c.seed, c.tier = tier == 'thorough', seed, tier
+    make_bases(c)
+
+
 def explore(ctx):
     make_bases(ctx)
     depth = 3 if ctx.thorough else 2
